@@ -1138,6 +1138,19 @@ class Engine:
             self.depth -= 1
         return NONE
 
+    def run_body(self, f, args, kwargs):
+        """Execute the body of a generator / async-generator function with its `yield`s handled by
+        the contract's yield hook (used by proof harnesses; generators are never run lazily)."""
+        fr = Frame(f.node, f.module, f.frame, f.qualname)
+        fr.self_cls = f.cls
+        fr.is_gen = True
+        self.bind_params(f.node.args, args, kwargs, fr, f)
+        try:
+            self.block(f.node.body, fr)
+        except _Return as r:
+            return r.value
+        return NONE
+
     def bind_params(self, a, args, kwargs, fr, f):
         args = list(args)
         kwargs = dict(kwargs)
@@ -1422,7 +1435,7 @@ class Engine:
         hook(self, st, fr, kind, src)
 
     # helper used by loop hooks -------------------------------------------------
-    def cut_loop(self, st, fr, inv, havoc, test=None, bind=None, label='', on_exit=None):
+    def cut_loop(self, st, fr, inv, havoc, test=None, bind=None, label='', on_exit=None, step=None):
         """Generic invariant cut.
         inv(tag) -> list[(name, formula)] evaluated on the CURRENT state
         havoc()  -> replaces everything the body may modify by fresh values
@@ -1447,6 +1460,8 @@ class Engine:
                 return
             except _Continue:
                 pass
+            if step is not None:
+                step()
             for name, f in inv('preserve'):
                 self.oblige('%s/invariant(%s).%s preserved' % (q, label, name), f, site=st.lineno)
             raise PathEnd()
